@@ -248,6 +248,7 @@ func (ex *Exec) verifyFunc(fn *ssa.Function, c *Contract) {
 		k, _ := strconv.Atoi(t[i+1:])
 		st.setHeap(siteErrHeap(fn.String(), t[:i], k), NilIface)
 	}
+	ex.replayBase, ex.replayCur = ex.replayBaseFor(st, fn, c), nil
 	ex.entry = st.snapshot()
 	fr0 := &Frame{fn: fn, contract: c, depth: 0, params: ex.topParams}
 	env := &Env{ex: ex, st: st, old: ex.entry, vars: map[string]Val{}, fr: fr0, pkg: ex.pkgOfFrame(fr0)}
@@ -299,6 +300,7 @@ func (ex *Exec) verifyFunc(fn *ssa.Function, c *Contract) {
 				post.vars["result"] = r
 			}
 		}
+		ex.replayCur = ex.replayBase.withResults(ex, st2, sig, rets)
 		if c.NoReturn {
 			ex.check(st2, fr0, "post", "noreturn", FalseT, c.NoReturnProps, "the function never returns to its caller", "")
 		}
@@ -318,6 +320,7 @@ func (ex *Exec) verifyFunc(fn *ssa.Function, c *Contract) {
 				st2.script[len(st2.script)-1].Check.NoAssume = true
 			}
 		}
+		ex.replayCur = nil
 		ex.frameChecks(st2, fr0, fdecl, c.File)
 		ex.endPath(st2, "ret")
 	})
